@@ -206,6 +206,9 @@ def explorer_cells(tier):
     # a task that fails: flush / gather-and-close raise inside the awaited pool method
     cell("wait flush failing t2", tasks=2, fail=[0], sessions=[["flush", "num-running", "flush -r", H]])
     cell("wait gac failing t2 | help", tasks=2, fail=[1], sessions=[["gather-and-close", "nope"], ["-h", "num-ended"]])
+    # application code that waits in pool.until_closed() next to a session doing the same, and gives up (is cancelled)
+    cell("until-closed | app waits in until_closed() and is cancelled | closer", tasks=1, closer=True, app_waiter=True,
+         sessions=[["until-closed", "num-running"], ["until-closed"]])
     # a close attempt that was answered with a task's exception, then further attempts (same and other session)
     cell("gac failing t1, gac -r, num-running", tasks=1, fail=[0], sessions=[["gather-and-close", "gather-and-close -r", "num-running"]])
     cell("gac failing t1 | gac -r", tasks=1, fail=[0], sessions=[["gather-and-close", "num-ended"], ["gather-and-close -r", "-h"]])
